@@ -61,6 +61,7 @@ def st_case(draw):
     else:
         spec = draw(zp.st_cubic1(delta_range=(0.1, 0.5), min_alpha=2e-3))
         nf = 1
+    spec = zp.with_guess(spec, draw(zp.st_guess()))
     kind = draw(st.sampled_from(["perm", "refl", "trans", "mixed", "mixed"]))
     perm = list(range(nf))
     signs = [1.0] * nf
@@ -116,7 +117,7 @@ def check_case(case) -> Verdict:
     kind = _kind(case["relabel"], nf)
     fam = base["family"]
     cls = f"{fam} {kind}"
-    v.label(f"family:{fam}", f"relabel:{kind}")
+    v.label(f"family:{fam}", f"relabel:{kind}", "guess:rough" if base.get("guess") else "guess:exact")
     cfg, cfg_t = SETTINGS["default"], SETTINGS["tight"]
     A = _run(base, cfg)
     if A.get("timeout"):
